@@ -90,7 +90,11 @@ class CountFeatureCompressionTransformer(BaseEstimator, TransformerMixin):
         rescaled_data = scipy.sparse.csr_matrix(normed_data)
         rescaled_data.data = np.power(normed_data.data, self.rescaling_power)
         if self.algorithm == "arpack":
-            u, s, v = svds(rescaled_data, k=self.n_components)
+            u, s, v = svds(
+                rescaled_data,
+                k=self.n_components,
+                random_state=check_random_state(self.random_state),
+            )
         elif self.algorithm == "randomized":
             random_state = check_random_state(self.random_state)
             u, s, v = randomized_svd(
